@@ -976,3 +976,43 @@ func init() {
 	reg("C19.default", checkC19Default)
 	reg("C19.num", checkC19Num)
 }
+
+// ---- number_format with many decimals, on numbers that float64 holds exactly ----------------------------
+
+type C19DyadicCase struct {
+	K int `json:"k"` // the number is K / 2^M
+	M int `json:"m"`
+	P int `json:"p"` // decimals, >= M (so that nothing is rounded)
+}
+
+func checkC19Dyadic(c C19DyadicCase) error {
+	x := float64(c.K) / float64(int64(1)<<uint(c.M))
+	want := new(big.Rat).SetFrac64(int64(c.K), int64(1)<<uint(c.M)).FloatString(c.P)
+	r := render1(fmt.Sprintf("{{ x|number_format(%d, '.', '') }}", c.P), map[string]interface{}{"x": x})
+	if r.Failed() || r.Out != want {
+		return fmt.Errorf("(%d / 2^%d)|number_format(%d, '.', '') = %v, the exact decimal expansion is %s", c.K, c.M, c.P, r, want)
+	}
+	return nil
+}
+
+func TestC19Dyadic(t *testing.T) {
+	r := NewRec(t, "C19", "exhaustive: number_format(p, '.', '') of k / 2^m (exact in float64) for m in 0..24, k in {1, 3, -5, 1023}, p in {m, m+1, 14, 15, 16, 20, 30} with p >= m (no rounding involved); oracle: the exact decimal expansion (math/big); non-trivial = p > 3")
+	defer r.Flush()
+	r.SetExhaustive()
+	for m := 0; m <= 24; m++ {
+		for _, k := range []int{1, 3, -5, 1023} {
+			for _, p := range []int{m, m + 1, 14, 15, 16, 20, 30} {
+				if p < m {
+					continue
+				}
+				c := C19DyadicCase{K: k, M: m, P: p}
+				r.Case(fmt.Sprint(c), p > 3, c)
+				if err := checkC19Dyadic(c); err != nil {
+					r.FailEnumKey(t, "C19.dyadic", fmt.Sprint(p > 14), c, err)
+				}
+			}
+		}
+	}
+}
+
+func init() { reg("C19.dyadic", checkC19Dyadic) }
